@@ -1,6 +1,6 @@
 """C19 - port discovery picks only EiBotBoards, in enumeration order, and finds by name.
 
-All ordered lists of 0..4 (thorough 5) enumerated ports over a 14-descriptor alphabet x
+All ordered lists of 0..4 (thorough 5) enumerated ports over a 16-descriptor alphabet x
 lookup names derived from the list itself (every reported name, serial tag and port name in
 three casings), through both layers with the enumerator replaced by a stub.
 """
@@ -30,6 +30,9 @@ DESCRIPTORS = [
     ("/dev/cu.usbmodem5", "EiBotBoard,Big Bot", VIDPID + " SER=Big Bot LOCATION=20-5"),
     # named in the description only (no serial tag in the hardware id)
     ("/dev/cu.usbmodem7", "EiBotBoard,Solo", VIDPID + " LOCATION=20-7"),
+    # serial tags with an underscore (how Windows shows a blank in the nickname)
+    ("COM8", "USB Serial Device (COM8)", VIDPID + " SER=LAB_WEST LOCATION=1-7"),
+    ("COM9", "USB Serial Device (COM9)", VIDPID + " SNR=PEN_LAB_2"),
 ]
 
 
